@@ -53,6 +53,7 @@ type lfsServer struct {
 	taintedAt    map[string]int // oid -> index into reqs at which a batch response naming hashAlgo offered it
 	mutate   func(kind string, v map[string]interface{}) // corrupt a response just before it is sent (C18)
 	cursorsHanded map[string]bool
+	pickAdvertised bool // answer with the first transfer adapter the client advertises that is not a built-in one
 	slowGet    func(w http.ResponseWriter, r *http.Request, b []byte) // serves a storage GET outside the server lock (C02 concurrency)
 	hdrStyle   int  // how the server spells the header NAMES of the actions it offers: 0 canonical, 1 lower, 2 upper, 3 mixed
 	offerExtra bool // offered actions also carry Authorization (and, for uploads, Content-Type)
@@ -177,7 +178,8 @@ func (s *lfsServer) handle(w http.ResponseWriter, r *http.Request) {
 		s.capture(r, body, "batch")
 		kindOf = "batch"
 		var req struct {
-			Operation string `json:"operation"`
+			Operation string   `json:"operation"`
+			Transfers []string `json:"transfers"`
 			Objects   []struct {
 				Oid  string `json:"oid"`
 				Size int64  `json:"size"`
@@ -202,6 +204,14 @@ func (s *lfsServer) handle(w http.ResponseWriter, r *http.Request) {
 			Transfer string `json:"transfer"`
 			Objects  []obj  `json:"objects"`
 		}{Transfer: "basic", Objects: []obj{}}
+		if s.pickAdvertised {
+			for _, t := range req.Transfers {
+				if t != "basic" && t != "ssh" && t != "tus" && t != "lfs-standalone-file" {
+					out.Transfer = t
+					break
+				}
+			}
+		}
 		for _, o := range req.Objects {
 			ob := obj{Oid: o.Oid, Size: o.Size}
 			_, have := s.objs[o.Oid]
